@@ -55,8 +55,8 @@ def run(tier, seed):
         ck.violation('genesis-reencode', 'the built-in genesis block does not re-encode byte-identically', {'kind': 'genesis'})
     reqs = []
     meta = []
-    with chaingen.Env(period=C.BLOCKS_BETWEEN_TARGET_READJUSTMENT, block_span=120, fast=False) as env:
-        env.span = C.DESIRED_TARGET_READJUSTMENT_TIMESPAN
+    with chaingen.Env(period=common.param('BLOCKS_BETWEEN_TARGET_READJUSTMENT'), block_span=120, fast=False) as env:
+        env.span = common.param('DESIRED_TARGET_READJUSTMENT_TIMESPAN')
         cs = CoinState.zero()
         # genesis evidence recomputes with the real scrypt
         try:
@@ -150,15 +150,15 @@ def run(tier, seed):
     hz = cheating.MAX_KNOWN_HASH_HEIGHT
     ck.extra['checkpoints'] = len(table)
     ck.extra['horizon'] = hz
-    if C.MAX_KNOWN_HASH_HEIGHT != hz or C.KNOWN_HASHES is not cheating.KNOWN_HASHES and C.KNOWN_HASHES != table:
+    if common.param('MAX_KNOWN_HASH_HEIGHT') != hz or common.param('KNOWN_HASHES') is not cheating.KNOWN_HASHES and common.param('KNOWN_HASHES') != table:
         ck.violation('validator-uses-other-table', 'consensus uses a checkpoint table / horizon different from cheating.py',
                      {'kind': 'table'})
     if hz != max(table):
         ck.violation('horizon-not-max', 'checkpoint horizon is not the greatest checkpointed height', {'kind': 'table'})
     known_sx = [[h, unhexlify(v)] for h, v in sorted(table.items())]
-    params = [hz + 1, known_sx, C.BLOCKS_BETWEEN_TARGET_READJUSTMENT, C.DESIRED_TARGET_READJUSTMENT_TIMESPAN,
-              C.MAX_BLOCK_SIZE, C.MAX_COINBASE_RANDOM_DATA_SIZE, C.MAX_FUTURE_BLOCK_TIME, C.MAX_SASHIMI,
-              C.SUBSIDY_HALVING_INTERVAL, C.INITIAL_SUBSIDY, C.CHAIN_SAMPLE_COUNT, C.CHAIN_SAMPLE_SIZE]
+    params = [hz + 1, known_sx, common.param('BLOCKS_BETWEEN_TARGET_READJUSTMENT'), common.param('DESIRED_TARGET_READJUSTMENT_TIMESPAN'),
+              common.param('MAX_BLOCK_SIZE'), common.param('MAX_COINBASE_RANDOM_DATA_SIZE'), common.param('MAX_FUTURE_BLOCK_TIME'), common.param('MAX_SASHIMI'),
+              common.param('SUBSIDY_HALVING_INTERVAL'), common.param('INITIAL_SUBSIDY'), common.param('CHAIN_SAMPLE_COUNT'), common.param('CHAIN_SAMPLE_SIZE')]
     cs0 = CoinState.zero()
     heights = sorted(table)
     extra_heights = sorted(set([h + d for h in heights[:5] + heights[-5:] for d in (-1, 1) if h + d > 0 and (h + d) not in table]))
